@@ -169,7 +169,10 @@ func (aead *aesCBCAEAD) Seal(dst, nonce, plaintext, additionalData []byte) []byt
 }
 
 func (aead *aesCBCAEAD) Open(dst, nonce, ciphertext, additionalData []byte) ([]byte, error) {
-	if len(ciphertext) < aead.tagSize {
+	if len(nonce) != aes.BlockSize {
+		return nil, errors.New("invalid nonce size")
+	}
+	if len(ciphertext) < aead.tagSize || (len(ciphertext)-aead.tagSize)%aes.BlockSize != 0 {
 		return nil, errors.New("invalid ciphertext size")
 	}
 
